@@ -350,6 +350,7 @@ def classify(v):
 def run(ctx):
     thorough = ctx.tier == "thorough"
     binp = ctx.go_build("c16")
+    handles_stage(ctx, binp, thorough)    # behaviour class MIXED HANDLES (GlobalHandles.tla), see the end of this file
     # ------------------------------------------------------------ exhaustive model checking
     fam = FAMILY_QUICK + (FAMILY_THOROUGH if thorough else [])
     # which code is modelled: D1 is in the tree as long as its known-findings entry says "known"; once the coordinator
@@ -565,3 +566,67 @@ def dump_shows_cycle(d):
         return False
     return ("global.(*registration).setDelegate" in d and "global.(*meter).RegisterCallback.func1" in d
             and "sync.(*Mutex).lockSlow" in d)
+
+
+# ---------------------------------------------------------------------------------------------------------------
+# Behaviour class MIXED HANDLES (specs/GlobalDelegate/GlobalHandles.tla, harness/c16/handles.go): histories
+# pre-install .. SetMeterProvider .. post-install over one scope; meters "old" (obtained before) / "new" (after),
+# instrument handles "ph" (before) / "nat" (same identity, after), registrations [meter, list, body] made before or
+# after the installation through either meter, Unregister, Add through either handle. The expectation of every
+# case is the `exp` component TLC computed for the successor state.
+H_SIM_SHAPES = ('AllShapes({"a"}) \\cup AllShapes({"b"}) \\cup {'
+                '[list |-> {<<"a","nat">>,<<"c","ph">>}, body |-> {<<"a","ph">>,<<"c","ph">>}], '
+                '[list |-> {<<"a","ph">>,<<"b","nat">>,<<"c","nat">>}, body |-> {<<"a","nat">>,<<"b","ph">>,<<"c","ph">>,<<"c","nat">>}], '
+                '[list |-> {<<"c","nat">>}, body |-> {<<"c","ph">>}], [list |-> {<<"c","ph">>}, body |-> {<<"c","nat">>}]}')
+
+
+def hdefs(obs, sync, shapes, regs, adds, steps, wrap="always", unwrap=True, unreg="sdk"):
+    return {"OBSIDS": tset(obs), "SYNCIDS": tset(sync), "SHAPES": shapes, "MAXREGS": regs, "MAXADDS": adds, "MAXSTEPS": steps,
+            "WRAP": '"%s"' % wrap, "UNWRAPLIST": "TRUE" if unwrap else "FALSE", "UNREGPOST": '"%s"' % unreg}
+
+
+def handles_stage(ctx, binp, thorough):
+    one = 'AllShapes({"a"})'
+    fam = [("h-a-s-2regs", hdefs(["a"], ["s"], one, 2, 2, 8 if thorough else 7)),
+           ("h-ab-1reg", hdefs(["a", "b"], [], 'AllShapes({"a", "b"})', 1, 1, 8 if thorough else 7))]
+    if thorough:
+        fam.append(("h-a-st-3regs", hdefs(["a"], ["s", "t"], one, 3, 1, 7)))    # 59 081 edges (8 steps: 219 145, 330 MB of edges)
+    edges = []
+    for name, d in fam:
+        r = ctx.tlc(S, "MC_GlobalHandles", "MC_GlobalHandles.cfg", defines=d, want_edges=True, name="mc-" + name, timeout=1800, heap="2g")
+        edges.append(r["edges_file"])
+    # shape switches: TLC must exhibit each deviation of the class on the model (Forwarding violated)
+    devs = [("wrap-only-if-placeholder-listed", dict(wrap="if-ph-listed")), ("list-not-unwrapped", dict(unwrap=False)),
+            ("post-install-unregister-noop", dict(unreg="noop"))] + ([("wrap-only-at-handover", dict(wrap="handover-only"))] if thorough else [])
+    seen = {}
+    for label, kw in devs:
+        r = ctx.tlc(S, "MC_GlobalHandles", "MC_GlobalHandles.cfg", defines=hdefs(["a"], [], one, 1, 1, 5, **kw), workers=1,
+                    name="mc-hdev-" + label, must_pass=False, count=False, timeout=600, heap="2g")
+        seen[label] = r["violated"]
+        if r["violated"] != "Forwarding":
+            ctx.note_inconclusive("model drift: TLC does not exhibit the handle-class deviation %s (%s)" % (label, r["out"]))
+    ctx.extra["handles_deviation_shapes_violate"] = seen
+    # long seeded histories (three observable identities, two synchronous ones, four registrations)
+    r = ctx.tlc(S, "MC_GlobalHandlesSim", "MC_GlobalHandlesSim.cfg", defines=hdefs(["a", "b", "c"], ["s", "t"], H_SIM_SHAPES, 4, 3, 16),
+                workers=1, simulate="num=%d" % (1500 if thorough else 80), depth=60, name="sim-handles", timeout=1800, heap="2g")
+    wf = os.path.join(ctx.work, "handles-walks.ndjson")
+    with open(wf, "w") as f:
+        for s_ in r["prints"]:
+            if isinstance(s_, str) and s_.startswith("BEHAVIOUR "):
+                f.write(s_[len("BEHAVIOUR "):] + "\n")
+    rf = os.path.join(ctx.work, "res-handles.json")
+    par = max(4, min(12, (os.cpu_count() or 8) // 2))
+    ctx.run([binp, "hbatch", "-edges", ",".join(edges), "-walks", wf, "-res", rf, "-par", str(par), "-lanes", "25"], timeout=3000)
+    res = json.load(open(rf))
+    ctx.extra["handles_counters"] = res["counters"]
+    ctx.traces_validated += res["executed"]
+    ctx.evaluations += res["executed"]
+    for msg in res["inconclusive"]:
+        ctx.note_inconclusive("handles: " + msg)
+    c = res["counters"]
+    if res["executed"] < 0.98 * c.get("cases", 0) or not c.get("cases_observing_through_other_handle_than_listed") or not c.get("cases_walk"):
+        ctx.note_inconclusive("handles: vacuity (executed %d of %d cases, counters %s)" % (res["executed"], c.get("cases", 0), c))
+    for m in res["mismatches"]:
+        sig = dict(m["case"])
+        sig["source"] = "handles"
+        ctx.violation(sig, replay={"history": m.get("path"), "act": m.get("act"), "want": m.get("want"), "got": m.get("got"), "detail": m.get("detail")})
